@@ -70,6 +70,8 @@ pub fn generate(scope: &str, name: &str, seed: u64, k: u64, rng: &mut Rng, tier:
                 1 => Profile::medium(),
                 _ => Profile::small(),
             };
+            let mut p = p;
+            p.non_transitive = rng.chance(30);
             let inst = gen_instance(rng, &p);
             match load_or_report(inst) {
                 Err(s) => head + &s,
@@ -105,7 +107,7 @@ pub fn generate(scope: &str, name: &str, seed: u64, k: u64, rng: &mut Rng, tier:
             }
         }
         "tour" => {
-            let mut p = Profile::small();
+            let mut p = if rng.chance(30) { Profile::maint_heavy() } else { Profile::small() };
             p.non_transitive = rng.chance(35);
             let inst = gen_instance(rng, &p);
             match load_or_report(inst) {
